@@ -1,6 +1,7 @@
 package mcp
 
 import (
+	"errors"
 	"context"
 	"log/slog"
 	"time"
@@ -282,4 +283,131 @@ func zzNotifyLegacyRU(sessions []*ServerSession, method string, params *Resource
 func zzID7() jsonrpc.ID {
 	id, _ := jsonrpc.MakeID(float64(7))
 	return id
+}
+
+// H4: the 2026-07-28 subscriptions/listen handler. While a listen is open its subscriptions are registered (so the
+// notifications reach it); however it ends — a URI refused by the SubscribeHandler, the acknowledgement undeliverable,
+// cancellation — nothing of it stays behind in the server's subscription tables.
+var zzAckSeen func()
+var zzAckFails bool
+
+func zzNotifySubscriptionAcked(ss *ServerSession, ctx context.Context, params *SubscriptionsAcknowledgedParams) error {
+	if zzAckSeen != nil {
+		zzAckSeen()
+	}
+	if zzAckFails {
+		return errors.New("write: connection reset")
+	}
+	return nil
+}
+
+func zzAllCapabilities(s *Server) *ServerCapabilities {
+	return &ServerCapabilities{
+		Tools:     &ToolCapabilities{ListChanged: true},
+		Prompts:   &PromptCapabilities{ListChanged: true},
+		Resources: &ResourceCapabilities{ListChanged: true, Subscribe: true},
+	}
+}
+
+func zzC18Listen() {
+	nURIs := vChoice("uris", 3)
+	refuse := vChoice("refusedURI", 3) // 0: none, k: the k-th URI is refused by the application's SubscribeHandler
+	uris := []string{"file:///x", "file:///y"}[:nURIs]
+	opts := &ServerOptions{
+		SubscribeHandler: func(ctx context.Context, req *SubscribeRequest) error {
+			if refuse > 0 && refuse <= nURIs && req.Params.URI == uris[refuse-1] {
+				return errors.New("not allowed to watch this resource")
+			}
+			return nil
+		},
+		UnsubscribeHandler: func(context.Context, *UnsubscribeRequest) error { return nil },
+	}
+	srv := NewServer(&Implementation{Name: "s", Version: "v"}, opts)
+	ss := zzNewProtoSession(srv)
+	other := zzNewProtoSession(srv)
+	srv.sessions = []*ServerSession{ss, other}
+	// another session's subscriptions must survive whatever happens to this listen
+	srv.toolChangeSubscriptions[other] = zzID7()
+	srv.resourceSubscriptions["file:///x"] = map[*ServerSession]jsonrpc.ID{other: zzID7()}
+	want := &NotificationSubscriptions{ToolsListChanged: vBool("tools"), PromptsListChanged: vBool("prompts"), ResourcesListChanged: vBool("resources"), ResourceSubscriptions: uris}
+	zzAckFails = vBool("ackUndeliverable")
+	acked := false
+	zzAckSeen = func() {
+		acked = true
+		// when the acknowledgement goes out, everything acknowledged is in place
+		_, t := srv.toolChangeSubscriptions[ss]
+		vAssert(t == want.ToolsListChanged, "C18.listen.registered-before-acknowledged")
+		for _, u := range uris {
+			_, in := srv.resourceSubscriptions[u][ss]
+			vAssert(in, "C18.listen.registered-before-acknowledged")
+		}
+	}
+	ctx, cancel := context.WithCancel(context.WithValue(context.Background(), idContextKey{}, zzID7()))
+	cancel() // the listen is cancelled as soon as it parks (Close, or the peer's notifications/cancelled)
+	_, err := srv.subscriptionsListen(ctx, &SubscriptionsListenRequest{Session: ss, Params: &SubscriptionsListenParams{Notifications: want}})
+	refused := refuse > 0 && refuse <= nURIs
+	vAssert((err != nil) == (refused || zzAckFails), "C18.listen.fails-iff-refused-or-unacknowledged")
+	vAssert(acked == !refused, "C18.listen.acknowledged-iff-accepted")
+	// nothing of this listen stays behind
+	_, t := srv.toolChangeSubscriptions[ss]
+	_, p := srv.promptChangeSubscriptions[ss]
+	_, r := srv.resourceChangeSubscriptions[ss]
+	vAssert(!t && !p && !r, "C18.listen.ended-listen-leaves-no-subscription")
+	for _, m := range srv.resourceSubscriptions {
+		_, in := m[ss]
+		vAssert(!in, "C18.listen.ended-listen-leaves-no-subscription")
+	}
+	_, ot := srv.toolChangeSubscriptions[other]
+	_, ox := srv.resourceSubscriptions["file:///x"][other]
+	vAssert(ot && ox, "C18.listen.other-sessions-untouched")
+	if refused {
+		vReach("refused")
+	}
+	vReach("end")
+}
+
+// C10 (and C18): a fan-out issued from inside a request handler. The handler's context names the request being
+// served in session A; what is sent to OTHER sessions must not travel with that context — the streamable server
+// routes a message by the request id found in its context, so session B would put the notification on the exchange
+// of its own request with the same id (or drop it), instead of its standalone stream.
+type zzFanRec struct {
+	to      []*ServerSession
+	related []bool // the context the message was sent with names a request
+	methods []string
+}
+
+var zzFan *zzFanRec
+
+func zzFanSend(ctx context.Context, method string, req Request) (Result, error) {
+	id, ok := ctx.Value(idContextKey{}).(jsonrpc.ID)
+	zzFan.to = append(zzFan.to, req.GetSession().(*ServerSession))
+	zzFan.related = append(zzFan.related, ok && id.IsValid())
+	zzFan.methods = append(zzFan.methods, method)
+	return nil, nil
+}
+
+func zzC10FanOut() {
+	rec := &zzFanRec{}
+	zzFan = rec
+	srv := NewServer(&Implementation{Name: "s", Version: "v"}, nil)
+	srv.sendingMethodHandler_ = zzFanSend
+	legacy, modern, bystander := zzLegacySession(srv), zzNewProtoSession(srv), zzLegacySession(srv)
+	srv.sessions = []*ServerSession{legacy, modern, bystander}
+	srv.resourceSubscriptions["file:///x"] = map[*ServerSession]jsonrpc.ID{legacy: jsonrpc.ID{}, modern: zzID7()}
+	// the caller is a request handler of some session: its context carries that request's id (and may be cancelled
+	// as soon as the handler returns)
+	ctx := context.Background()
+	fromHandler := vBool("calledFromARequestHandler")
+	if fromHandler {
+		ctx = context.WithValue(ctx, idContextKey{}, zzID7())
+	}
+	err := srv.ResourceUpdated(ctx, &ResourceUpdatedNotificationParams{URI: "file:///x"})
+	vAssert(err == nil, "C18.updated.no-error")
+	vAssert(len(rec.to) == 2, "C18.updated.exactly-the-subscribers-of-that-uri")
+	for i, s := range rec.to {
+		vAssert(s == legacy || s == modern, "C18.updated.exactly-the-subscribers-of-that-uri")
+		vAssert(rec.methods[i] == notificationResourceUpdated, "C18.updated.exactly-the-subscribers-of-that-uri")
+		vAssert(!rec.related[i], "C10.fan-out-not-tied-to-the-callers-request")
+	}
+	vReach("end")
 }
